@@ -246,7 +246,17 @@ def _exec(conn, sess, stmt, kind):
     return CS.norm_rows(conn.execute(stmt).all())
 
 
+def _reset_process_state():
+    """sql/lambdas.py keeps process-wide state: the per-code-object analysis (AnalyzedCode._fns) and the default lambda cache used by
+    where(lambda) / with_loader_criteria(lambda).  Every run starts from the state of a fresh process, so that a run is a pure function
+    of its case (replay in a fresh interpreter) and first-time analysis of each code object happens in every run."""
+    L = _m["lambdas"]
+    L.AnalyzedCode._fns.clear()
+    L._closure_per_cache_key = _m["LRUCache"](1000)
+
+
 def run_case(case):
+    _reset_process_state()
     if case["kind"] == "threads":
         return run_threads(case)
     viol = []
@@ -363,8 +373,9 @@ def run_threads(case):
                         want = ("rows", CS.norm_rows(cr.execute(direct).all()))
                         got = results.get((ti, j))
                         if got is not None and got != want:
-                            V("stale_or_wrong_lambda_result", "concurrent invocation of lambda family %s [%s] (model %s): lambda statement gave %s, "
-                              "direct statement %s" % (fam, desc, case["model"], repr(got)[:140], repr(want)[:140]), thread=ti, op=j)
+                            V("stale_or_wrong_lambda_result", "concurrent invocation of lambda family %s [%s] (model %s, lambda cache %d): lambda statement "
+                              "gave %s, direct statement %s" % (fam, desc, case["model"], case["lcache"], repr(got)[:140], repr(want)[:140]),
+                              thread=ti, op=j)
         pair.dispose()
         gc.collect()
     bump("steps", sim.steps)
